@@ -12,6 +12,12 @@ import Mathlib.Tactic.FieldSimp
 
 namespace GV.C06
 
+/-- The sweep an algorithm of the model performs at every iteration. -/
+def sweepOf (s : Sys) (c : Cfg) : Vec → Vec :=
+  match c.algo with
+  | .gaussSeidel => gsSweep s
+  | _ => jacobiSweep s
+
 variable {σ τ : Type}
 
 /-- Loop invariant of `mdaLoop`, for every sweep / residual / norm / update / start state:
